@@ -3,6 +3,7 @@ import random
 from ..core import Family
 from .. import plevel
 
+PROPERTY_FILES = ["C15", "C03_Stack"]
 TRUSTED_BASE = [
     "Coq 8.16.1 kernel (coqc full .vo build)",
     "hand-written model coq/Model/Limits.v of Engine::next's limit check, get_memory_usage_mb and the error mapping of Model::solve/minimize/enumerate_with_stats (search/mod.rs:430-672, model/core.rs) on top of the search model of C03 — modelled, not verified; tied by this run's differential under hook H4 (check-interval override + scripted clock), including the exact number of limit checks performed",
